@@ -184,6 +184,12 @@ def evaluate_unc(case):
             _, u1 = conv(X, Y, x, y2, dy, kw)
             if not np.array_equal(np.asarray(u1), u0):
                 fails.append(f"{X}_to_{Y}: uncertainty depends on the function values")
+            # the uncertainty must not depend on how equal numbers are stored: integer-typed counts vs the same values as floats
+            di = np.rint(dy * 7).astype(np.int64)
+            _, uf = conv(X, Y, x, y, di.astype(float), kw)
+            _, ui = conv(X, Y, x, y, di, kw)
+            if np.asarray(ui).shape != np.asarray(uf).shape or not np.allclose(np.asarray(ui, dtype=float), np.asarray(uf), rtol=1e-12, atol=0):
+                fails.append(f"{X}_to_{Y}: integer-typed uncertainties give different (truncated) results than the same values as floats")
             _, ub = conv(Y, X, x, v0, u0, kw)
             if pos.any() and relerr(np.asarray(ub)[pos], dy[pos]) > 1e-8:
                 fails.append(f"{X}_to_{Y} then back: uncertainty not restored")
